@@ -31,7 +31,7 @@ ANCHORS = [
     "stereomolgraph.algorithms.color_refine:_reaction_generator",
 ]
 REQUIRED_ANCHORS = ANCHORS
-REQUIRED = ["hash_pairs", "process_graphs", "with_changes", "with_placeholder", "mirror_rewrites", "large_graphs", "scale_cases"]
+REQUIRED = ["hash_pairs", "process_graphs", "with_changes", "with_placeholder", "mirror_rewrites", "large_graphs", "scale_cases", "high_coordination_cases"]
 CASE_TIMEOUT = 1600
 
 
@@ -63,6 +63,10 @@ def gen_cases(ctx):
             pg = gen.random_pg(rng, cls, n_range=big if rng.random() < 0.3 else (2, 9), alphabet=rng.choice([gen.TINY, gen.SMALL, gen.WIDE]), p_none=0.0, allow_empty=False)
         m = gen.random_bijection(rng, pg)
         yield {"kind": "variant", "cls": cls, "pg": pg_to_json(pg), "variant": c01.VARIANTS[j % len(c01.VARIANTS)], "bseed": rng.randrange(1 << 30), "idmap": [[a, b] for a, b in m.items()]}
+    for k, deg, cls, seed in gen.high_coordination_specs(ctx, rng):
+        pg = gen.high_coordination_pg(random.Random(seed), cls, deg)
+        m = gen.random_bijection(rng, pg)
+        yield {"kind": "variant", "cls": cls, "pg": pg_to_json(pg), "variant": ("rebuild", "relabel_copy", "derived")[k % 3], "bseed": seed // 3, "idmap": [[a, b] for a, b in m.items()], "high_coordination": deg}
     for k, nsz, cls, seed in gen.scale_specs(ctx, rng):
         yield {"kind": "variant", "cls": cls, "scale": nsz, "gseed": seed, "variant": ("rebuild", "derived", "relabel_copy", "relabel_inplace", "derived")[k % 5], "bseed": seed // 3}
     # process part: hash seeds are spread over the shards
@@ -92,6 +96,8 @@ def check_case(ctx, case):
     pg = case_pg(case)
     if "scale" in case:
         ctx.count("scale_cases")
+    if "high_coordination" in case:
+        ctx.count("high_coordination_cases")
     cls, variant = case["cls"], case["variant"]
     m = {a: b for a, b in case["idmap"]} if "idmap" in case else gen.random_bijection(random.Random(case["bseed"] + 1), pg)
     brng = random.Random(case["bseed"])
